@@ -129,9 +129,9 @@ def run(tier):
                     tag = cl
                     # diagnosis labels (recorded by the harness, not judged): which way the end is off
                     if cl == "first":
-                        tag += "/mid" if dg.get("mid") else "/f32" if dg.get("firstF32") else "/near" if dg.get("firstNear") else ""
+                        tag += "/mid" if dg.get("mid") else "/near" if dg.get("firstNear") else "/f32" if dg.get("firstF32") else ""
                     if cl == "last":
-                        tag += "/mid" if dg.get("mid") else "/f32" if dg.get("lastF32") else "/near" if dg.get("lastNear") else ""
+                        tag += "/mid" if dg.get("mid") else "/near" if dg.get("lastNear") else "/f32" if dg.get("lastF32") else ""
                     if cl == "count" and w["n"] == 0:
                         tag += "/empty"
                     v.violation("%s:%s" % (tag, case_key(k)),
